@@ -161,24 +161,34 @@ def refine(P: Optional[TableState], N: TableState, res: dict, commit_order: Opti
         out.append(("R.current_dangling", f"current {N.current_id} not among retained snapshots"))
 
     # sequence numbers
+    # (stated: strictly increasing in commit order, never above the table's last sequence number, which never decreases -
+    #  not "+1": the step width is the implementation's business)
     if new is not None:
-        if new.seq != P.last_seq + 1:
-            out.append(("R.seq", f"new sequence number {new.seq} != base last {P.last_seq} + 1"))
-        if N.last_seq != max(P.last_seq, new.seq if new.seq is not None else -1):
+        if new.seq is None or new.seq <= P.last_seq:
+            out.append(("R.seq", f"new sequence number {new.seq} is not above the base's last sequence number {P.last_seq}"))
+        if N.last_seq < max(P.last_seq, new.seq if new.seq is not None else -1):
             out.append(("R.seq", f"last_sequence_number {N.last_seq} after new seq {new.seq} (base {P.last_seq})"))
     else:
-        if N.last_seq != P.last_seq:
-            out.append(("R.seq", f"last_sequence_number changed {P.last_seq} -> {N.last_seq} without a snapshot"))
+        if N.last_seq < P.last_seq:
+            out.append(("R.seq", f"last_sequence_number decreased {P.last_seq} -> {N.last_seq}"))
 
     # parents: true nearest surviving ancestor or nothing
     parent_of = {s.id: s.parent for s in P.snaps}
     if new is not None:
         parent_of[new.id] = P.current_id
+    # (stated: "a retained true ancestor or nothing" - the NEAREST one is what the code picks and is not demanded)
     for s in N.snaps:
-        exp = _ancestor_in(parent_of, parent_of.get(s.id), nids)
         got = None if _nothing(s.parent) else s.parent
-        if got != exp:
-            out.append(("R.parent", f"snapshot {s.id}: parent {s.parent} but nearest surviving true ancestor is {exp}"))
+        if got is None:
+            continue
+        anc, p_, seen = set(), parent_of.get(s.id), set()
+        while not _nothing(p_) and p_ not in seen:
+            seen.add(p_)
+            anc.add(p_)
+            p_ = parent_of.get(p_)
+        if got not in nids or got not in anc:
+            out.append(("R.parent", f"snapshot {s.id}: parent {s.parent} is not a retained true ancestor "
+                                    f"(true ancestors {sorted(anc)}, retained {sorted(nids)})"))
 
     # existing snapshots are immutable
     for s in N.snaps:
@@ -211,8 +221,7 @@ def refine(P: Optional[TableState], N: TableState, res: dict, commit_order: Opti
         if sorted(want_rows, key=repr) != sorted(got_rows, key=repr):
             out.append(("R.rows", f"rows added by the commit differ from the rows supplied "
                                   f"(supplied {len(want_rows)}, added {len(got_rows)} in {len(added)} files)"))
-        if len(added) != len(res.get("appends", [])):
-            out.append(("R.files_added", f"{len(added)} files added for {len(res.get('appends', []))} appends"))
+        # (how many files an append is written as is not stated anywhere: only the rows count)
         for p in carried & set(new.files):
             a, b = base_files[p], new.files[p]
             if a.sha != b.sha:
@@ -247,9 +256,11 @@ def refine(P: Optional[TableState], N: TableState, res: dict, commit_order: Opti
             mx = 100
         if mx >= 1 and len(exp_ml) > mx:
             exp_ml = exp_ml[-mx:]
-        if mx < 1 and N.metadata_log == exp_ml[len(exp_ml) - len(N.metadata_log):] and len(N.metadata_log) <= len(exp_ml):
+        names = lambda log: [e.get("metadata-file") for e in log]     # noqa: E731  (entry timestamps are not stated)
+        if mx < 1 and names(N.metadata_log) == names(exp_ml)[len(exp_ml) - len(N.metadata_log):] \
+                and len(N.metadata_log) <= len(exp_ml):
             pass    # a bound of 0 / -1 configures nothing meaningful: any trimming of the true log is within it
-        elif N.metadata_log != exp_ml:
+        elif names(N.metadata_log) != names(exp_ml):
             out.append(("R.mlog", f"metadata log has {len(N.metadata_log)} entries "
                                   f"{[e.get('metadata-file') for e in N.metadata_log][-3:]}, expected {len(exp_ml)} "
                                   f"{[e.get('metadata-file') for e in exp_ml][-3:]}"))
